@@ -456,6 +456,8 @@ impl BlockFilterRpc for BlockFilterRpcImpl {
         let cells = iter
             .take_while(|(key, _value)| key.starts_with(&prefix))
             .filter_map(|(key, value)| {
+                #[cfg(feature = "verif")]
+                crate::verif_hook::at_read("read:get_cells.entry");
                 let tx_hash = packed::Byte32::from_slice(&value).expect("stored tx hash");
                 let output_index = u32::from_be_bytes(
                     key[key.len() - 4..]
@@ -629,6 +631,8 @@ impl BlockFilterRpc for BlockFilterRpcImpl {
             let mut last_key = Vec::new();
 
             for (key, value) in iter.take_while(|(key, _value)| key.starts_with(&prefix)) {
+                #[cfg(feature = "verif")]
+                crate::verif_hook::at_read("read:get_transactions.entry");
                 let tx_hash = packed::Byte32::from_slice(&value).expect("stored tx hash");
                 if tx_with_cells.len() == limit
                     && tx_with_cells.last_mut().unwrap().transaction.hash != tx_hash.unpack()
@@ -743,6 +747,8 @@ impl BlockFilterRpc for BlockFilterRpcImpl {
             let txs = iter
                 .take_while(|(key, _value)| key.starts_with(&prefix))
                 .filter_map(|(key, value)| {
+                    #[cfg(feature = "verif")]
+                    crate::verif_hook::at_read("read:get_transactions.entry");
                     let tx_hash = packed::Byte32::from_slice(&value).expect("stored tx hash");
                     let tx = packed::Transaction::from_slice(
                         &snapshot
@@ -863,6 +869,8 @@ impl BlockFilterRpc for BlockFilterRpcImpl {
         let capacity: u64 = iter
             .take_while(|(key, _value)| key.starts_with(&prefix))
             .filter_map(|(key, value)| {
+                #[cfg(feature = "verif")]
+                crate::verif_hook::at_read("read:get_cells_capacity.entry");
                 let tx_hash = packed::Byte32::from_slice(&value).expect("stored tx hash");
                 let output_index = u32::from_be_bytes(
                     key[key.len() - 4..]
@@ -959,6 +967,8 @@ impl BlockFilterRpc for BlockFilterRpcImpl {
             })
             .sum();
 
+        #[cfg(feature = "verif")]
+        crate::verif_hook::at_read("read:get_cells_capacity.tip");
         let key = Key::Meta(LAST_STATE_KEY).into_vec();
         let tip_header = snapshot
             .get(key)
